@@ -169,3 +169,14 @@ _NTR = len(cat.TREES)
 for _lo in range(0, _NTR, 9):
     _mk_noraise(_lo, min(_NTR, _lo + 9), ("quick",), 900, 40)
     _mk_noraise(_lo, min(_NTR, _lo + 9), ("thorough",), 3000, 200)
+
+
+@symx("C14-ansi-long-parameters", timeout=300, kind="P", functions=["rich/ansi.py:AnsiDecoder.decode_line"],
+      bounds="SGR sequences whose parameter is a run of 1, 3, 4, 19, 4300, 4301 or 5000 digits ('1' or '9'), alone and after '38;5;': "
+             "the decoder never raises (very long digit runs exceed CPython's int() conversion limit)")
+def c14_ansi_long(e):
+    k = [1, 3, 4, 19, 4300, 4301, 5000][int(e.mk("digits", 0, 6))]
+    d = "19"[int(e.mk("digit", 0, 1))]
+    prefix = ["", "38;5;", "48;2;1;"][int(e.mk("prefix", 0, 2))]
+    out = list(AnsiDecoder().decode("\x1b[" + prefix + d * k + "mx"))
+    return len(out) == 1 and out[0].plain == "x"
